@@ -9,6 +9,8 @@
     chs tag=<s> addr=<s> cmd=<s> answer=<authorized|sidNotFound|broken|other> full=<sid>:<key>:<user>:<auth>:<cmd,cmd>
     cexpire <sid> | cinvalidate <sid> | cgc
     clookup tag=<s> addr=<s> cmd=<s>
+    cget <sid>          `LookupNonExpired` on the client cache (an expired entry is deleted, its mappings stay) -> ok sid=<sid> | ok none
+    cmap                the RAW command map, sorted: ok [<key>-><sid> ...]   (what `LookupByCommand` cannot show: mappings whose session is gone)
 -/
 import CedarModel.SessionCache
 import Oracle.Util
@@ -126,6 +128,13 @@ def step (st : St) (toks : List String) : St × String :=
   | ["cexpire", sid] => ({ st with c := setExp st.c (chars sid) (some 0) }, "ok")
   | ["cinvalidate", sid] => ({ st with c := st.c.invalidate (chars sid) }, "ok")
   | ["cgc"] => ({ st with c := st.c.invalidateExpired st.now }, "ok")
+  | ["cget", sid] =>
+    match st.c.lookupNonExpired st.now (chars sid) with
+    | (c1, some e) => ({ st with c := c1 }, s!"ok sid={shows e.id}")
+    | (c1, none) => ({ st with c := c1 }, "ok none")
+  | ["cmap"] =>
+    let rows := (st.c.cmdMap.map (fun p => String.ofList p.1 ++ "->" ++ shows p.2)).toArray.qsort (· < ·)
+    (st, rows.foldl (fun acc r => acc ++ " " ++ r) "ok")
   | "clookup" :: _ =>
     match g "tag", g "addr", g "cmd" with
     | some tg, some ad, some cm =>
